@@ -81,6 +81,13 @@ var privileged = map[string][]string{
 	"DappManager":     {"FreezeDapp", "ActivateDapp"},
 }
 
+// callbacks without a caller check of their own whose effect is meant to depend only on what the calling contract
+// set up in the same transaction ("proposal ... ending"): exercised directly by an external account they must
+// change nothing
+var callbackNoEffect = map[string][]string{
+	"Governance": {"ZeroPermission"},
+}
+
 func inList(m map[string][]string, c, n string) bool {
 	for _, x := range m[c] {
 		if x == n {
@@ -413,6 +420,12 @@ func (s *scn) callEffectCheck(h uint64, i int, mt *txMeta, rc *pb.Receipt, keysC
 	if isViewName(mt.call.name) && len(keysChanged) > 0 {
 		s.vio("C17", "read-method-writes", mt.call.contract+"."+mt.call.name, "block %d tx %d: %s.%s(%s) by %s changed state keys %q", h, i, mt.call.contract, mt.call.name, mt.callArgs, role, trimKeys(keysChanged))
 	}
+	if inList(callbackNoEffect, mt.call.contract, mt.call.name) {
+		s.res.Count("calls_callback_by_external_account")
+		if len(keysChanged) > 0 {
+			s.vio("C17", "callback-exercised-by-external-account", mt.call.contract+"."+mt.call.name, "block %d tx %d: %s.%s(%s), a contract-to-contract callback, was called directly by an external account (%s), succeeded and changed state keys %q", h, i, mt.call.contract, mt.call.name, mt.callArgs, role, trimKeys(keysChanged))
+		}
+	}
 	if role == "outsider" {
 		// ... nor the account bookkeeping of the administrators that were there before the run began (the record
 		// that says which role holds an account)
@@ -505,4 +518,73 @@ func (s *scn) applyOccupyCycle(st CStep) {
 	s.add(s.b.bvmAddr(o, types.NewAddressByStr(wd.addr), wd.name, S(g.ProposalID), S("reason")), &txMeta{kind: "call", sender: o, note: wd.contract + "." + wd.name + "/outsider", call: wd, callArgs: "own proposal"})
 	s.flush()
 	s.res.Count("probe_outsider_application_withdrawn")
+}
+
+// applyZeroSwitch: a proposal of one module is left open, that module's voting strategy is then switched (to
+// ZeroPermission or to another expression) by a voted strategy update, and the outsider exercises the governance
+// contract's proposal callbacks on the open proposal. Each direct call is a block of its own so that the twin judges it.
+func (s *scn) applyZeroSwitch(st CStep) {
+	find := func(c, n string) *methodInfo {
+		for i, m := range s.surface() {
+			if m.contract == c && m.name == n {
+				return &s.surface()[i]
+			}
+		}
+		return nil
+	}
+	c := s.chains[st.A%len(s.chains)]
+	S := pb.String
+	s.flush()
+	// 1. an operation of the chain's own admin that needs a vote stays open
+	module := []string{"appchain_mgr", "service_mgr"}[st.N%2]
+	var tx *pb.BxhTransaction
+	if module == "appchain_mgr" {
+		tx = s.b.bvm(c.admin, constant.AppchainMgrContractAddr, "UpdateAppchain", S(c.id), S(fmt.Sprintf("name-%s-z%d", c.id, st.B)), S("desc"), pb.Bytes(nil), S(c.admin.Addr.String()), S("reason"))
+	} else {
+		sv := c.services[st.B%len(c.services)]
+		tx = s.b.bvm(c.admin, constant.ServiceMgrContractAddr, "LogoutService", S(c.id+":"+sv.id), S("reason"))
+	}
+	s.add(tx, &txMeta{kind: "gov", sender: c.admin, note: "open-proposal/" + module, target: c.id})
+	rs := s.flush()
+	if rs == nil || len(rs.Receipts) == 0 {
+		return
+	}
+	rc := rs.Receipts[len(rs.Receipts)-1]
+	g := &governance.GovernanceResult{}
+	if rc.Status != pb.Receipt_SUCCESS || json.Unmarshal(rc.Ret, g) != nil || g.ProposalID == "" {
+		return
+	}
+	pid := g.ProposalID
+	// 2. the module's strategy is updated by the administrators
+	typ, extra := "ZeroPermission", ""
+	if st.N%5 == 4 {
+		typ, extra = "SimpleMajority", "a >= 1"
+	}
+	a0 := s.cfg.World.adminKey(0)
+	if !s.govApprove(a0, constant.ProposalStrategyMgrContractAddr, "update-strategy/"+module+"/"+typ, module, "UpdateProposalStrategy", S(module), S(typ), S(extra), S("reason")) {
+		return
+	}
+	s.res.Count("probe_strategy_switched_with_open_proposal")
+	// 3. the outsider exercises the proposal callbacks on the open proposal
+	o := s.users[len(s.users)-1]
+	for _, name := range []string{"ZeroPermission", "EndObjProposal", "UnLockLowPriorityProposal"} {
+		mi := find("Governance", name)
+		if mi == nil {
+			continue
+		}
+		var args []*pb.Arg
+		switch name {
+		case "ZeroPermission":
+			args = []*pb.Arg{S(pid)}
+		case "EndObjProposal":
+			args = []*pb.Arg{S(c.id), S("reason"), pb.Bytes(nil)}
+		default:
+			args = []*pb.Arg{S(c.id), S("update")}
+		}
+		if len(args) != len(mi.in) {
+			continue
+		}
+		s.add(s.b.bvmAddr(o, types.NewAddressByStr(mi.addr), mi.name, args...), &txMeta{kind: "call", sender: o, note: mi.contract + "." + mi.name + "/outsider", call: mi, callArgs: "open proposal " + pid})
+		s.flush()
+	}
 }
